@@ -104,7 +104,7 @@ pub fn inject_suite(out: &mut Out, coll: &str, rng: &mut Rng, n_hist: usize, len
     (points, ops_with_cb)
 }
 
-/// segment tree: panic in `expiration()` during a query
+/// segment tree: panic in `expiration()` during any operation that calls it (the unchanged code: queries only)
 pub fn inject_seg(out: &mut Out, rng: &mut Rng, n_hist: usize, len: usize) -> usize {
     let mut points = 0;
     for h in 0..n_hist {
@@ -120,7 +120,6 @@ pub fn inject_seg(out: &mut Out, rng: &mut Rng, n_hist: usize, len: usize) -> us
             if rng.chance(3, 5) { ops.push(Op::new("insert", &[a, b, id + 1, t + rng.range(-1, 4)])); } else { ops.push(Op::new("query", &[a, b, t, if rng.chance(1, 3) { 2 } else { -1 }])); }
         }
         for i in 0..ops.len() {
-            if ops[i].name != "query" { continue; }
             // count callbacks of the clean run
             let n = {
                 let mut c = SegC::new(lo, hi).unwrap();
@@ -136,17 +135,10 @@ pub fn inject_seg(out: &mut Out, rng: &mut Rng, n_hist: usize, len: usize) -> us
                 let lines0 = r.out.lines;
                 for o in &ops[..i] { r.step(o); }
                 let _ = lines0;
-                cb_reset(Some(k), false);
-                let real = r.real.as_mut().unwrap();
-                let res = catch_unwind(AssertUnwindSafe(|| real.apply(&ops[i])));
-                cb_take();
-                r.ops.push(format!("{} [panic in callback #{}]", ops[i].text(), k));
-                r.out.eval("C18");
-                if res.is_ok() { continue; }
+                if !r.step_injected(&ops[i], k) { continue; }
+                if ops[i].name == "insert" { r.end(); continue; }
                 // survivor: whole-domain query at the same time must still be exact
                 let tq = ops[i].a[2];
-                // the interrupted query already purged copies expired at its time
-                r.last_q = Some(r.last_q.map_or(tq, |x| x.max(tq)));
                 r.step(&Op::new("query", &[lo, hi, tq, -1]));
                 r.end();
             }
